@@ -671,8 +671,9 @@ func (c *Client) Do(ctx context.Context, q Query) (err error) {
 	g, ctx := errgroup.WithContext(ctx)
 	done := make(chan struct{})
 	var (
-		gotException atomic.Bool
-		colInfo      chan proto.ColInfoInput
+		gotException  atomic.Bool
+		receiveFailed atomic.Bool
+		colInfo       chan proto.ColInfoInput
 	)
 	if q.Result == nil && len(q.Input) > 0 {
 		// Handling input column type inference, e.g. enums.
@@ -721,9 +722,16 @@ func (c *Client) Do(ctx context.Context, q Query) (err error) {
 		}
 		return nil
 	})
-	g.Go(func() error {
+	g.Go(func() (err error) {
 		// Receiving query result, data and telemetry.
 		defer close(done)
+		defer func() {
+			// The group context is canceled only after this function returns,
+			// so tell the cancellation handler about the failure explicitly.
+			if err != nil {
+				receiveFailed.Store(true)
+			}
+		}()
 		if colInfo != nil {
 			defer close(colInfo)
 		}
@@ -768,6 +776,11 @@ func (c *Client) Do(ctx context.Context, q Query) (err error) {
 		if ctx.Err() != nil && !gotException.Load() {
 			err := multierr.Append(ctx.Err(), c.cancelQuery())
 			return errors.Wrap(err, "canceled")
+		}
+		if receiveFailed.Load() && !gotException.Load() {
+			// Receiving failed in the middle of the response stream, connection
+			// can't be reused. The failure itself is reported by the receiver.
+			_ = c.cancelQuery()
 		}
 		return nil
 	})
